@@ -126,7 +126,8 @@ def run(cx):
                  ("R10h", "line generators yield CHText objects"),
                  ("R10i", "colours do not influence layout (non-interference)"),
                  ("R10j", "cached cell texts are never mutated in place by their consumers"),
-                 ("R10k", "a yielded line does not share its chunk list with a buffer the generator keeps changing")):
+                 ("R10k", "a yielded line does not share its chunk list with a buffer the generator keeps changing"),
+                 ("R10l", "entries of a keyed cache (per palette / per configuration) do not share mutable parts")):
         cx.rule(r, t)
 
     # ---------------- R10a
@@ -184,6 +185,8 @@ def run(cx):
     # ---------------- R10k
     from rules.c08 import make_ownership
     cx.guard(make_ownership, cx, repo, "R10k")
+    # ---------------- R10l
+    cx.guard(_r10l, cx, repo)
 
 
 # -------------------------------------------------------------------------------------------- R10c
@@ -706,3 +709,104 @@ def _r10j_purity(cx, repo):
     resize = cx.func("ak/color.py", "CHText.resize_chunks_list", "R10j")
     fit = cx.func("ak/ppobj.py", "FieldType.fit_to_width", "R10j")
     param_purity(cx, "R10j", [(resize, params(resize)[1]), (fit, params(fit)[0])])
+
+
+# -------------------------------------------------------------------------------------------- R10l
+_SHALLOW = ("dict", "list", "set", "copy")
+
+
+def _selfish(e):
+    return isinstance(e, ast.Name) and e.id in ("self", "cls")
+
+
+def _r10l(cx, repo):
+    """A cache attribute filled under a variable key (`self.<..cache..>[key] = V`) holds one entry per palette / configuration /
+    value.  If V is a persistent container of the object (`self.tpl`), or a one-level copy of it (`dict(self.tpl)`,
+    `self.tpl.copy()`, `{**self.tpl}`, `copy.copy(..)`) while the persistent container's own values are mutable containers, all
+    entries share those inner containers: what is rendered under one palette is then served under another.  Refuted only when
+    (a) the template demonstrably nests mutable containers and (b) the class writes two levels deep into a cache entry."""
+    n_sites = 0
+    for rel in sorted(set(RENDER_MODULES) | {REL}):
+        m = repo.modules.get(rel)
+        if m is None:
+            continue
+        for cls_ in [c for c in ast.walk(m.tree) if isinstance(c, ast.ClassDef)]:
+            meths = [f for f in cls_.body if isinstance(f, FUNC)]
+            init = {}
+            for f in meths:
+                for st in walk_local(f):
+                    if isinstance(st, ast.Assign):
+                        for t in st.targets:
+                            if is_self_attr(t):
+                                init.setdefault(t.attr, []).append(st.value)
+            for st in cls_.body:
+                if isinstance(st, ast.Assign):
+                    for t in st.targets:
+                        if isinstance(t, ast.Name):
+                            init.setdefault(t.id, []).append(st.value)
+
+            def nests_mutable(v):
+                """a container display / comprehension whose values are themselves mutable containers"""
+                def mut(x):
+                    return isinstance(x, (ast.Dict, ast.List, ast.Set, ast.DictComp, ast.ListComp, ast.SetComp)) or \
+                        (isinstance(x, ast.Call) and isinstance(x.func, ast.Name) and x.func.id in ("dict", "list", "set", "defaultdict", "OrderedDict"))
+                if isinstance(v, ast.Dict):
+                    return any(mut(x) for x in v.values)
+                if isinstance(v, (ast.List, ast.Set, ast.Tuple)):
+                    return any(mut(x) for x in v.elts)
+                if isinstance(v, ast.DictComp):
+                    return mut(v.value)
+                if isinstance(v, (ast.ListComp, ast.SetComp)):
+                    return mut(v.elt)
+                return False
+            deep_writes = []
+            for f in meths:
+                for x in walk_local(f):
+                    if isinstance(x, ast.Subscript) and isinstance(x.ctx, ast.Store) and isinstance(x.value, ast.Subscript):
+                        deep_writes.append(x)
+                    if isinstance(x, ast.Call) and isinstance(x.func, ast.Attribute) and x.func.attr in ("append", "extend", "update", "add", "setdefault", "insert") \
+                            and isinstance(x.func.value, ast.Subscript):
+                        deep_writes.append(x)
+            for f in meths:
+                for st in walk_local(f):
+                    if not isinstance(st, ast.Assign):
+                        continue
+                    for t in st.targets:
+                        if not (isinstance(t, ast.Subscript) and is_self_attr(t.value) and "cache" in t.value.attr.lower() and not isinstance(t.slice, ast.Constant)):
+                            continue
+                        n_sites += 1
+                        v = st.value
+                        if isinstance(v, ast.Name):
+                            ds = [d for _, d in assignments(f, v.id) if d is not None and d is not v]
+                            v = ds[0] if len(ds) == 1 else v
+                        src = None
+                        how = None
+                        if is_self_attr(v) or (isinstance(v, ast.Attribute) and is_name(v.value, "cls")):
+                            src, how = v.attr, "is the persistent object itself"
+                        elif isinstance(v, ast.Call) and isinstance(v.func, ast.Name) and v.func.id in _SHALLOW and len(v.args) == 1 and isinstance(v.args[0], ast.Attribute) \
+                                and _selfish(v.args[0].value):
+                            src, how = v.args[0].attr, f"is a one-level copy `{norm(v)}`"
+                        elif isinstance(v, ast.Call) and isinstance(v.func, ast.Attribute) and v.func.attr == "copy" and not v.args:
+                            b = v.func.value
+                            if isinstance(b, ast.Attribute) and _selfish(b.value):
+                                src, how = b.attr, f"is a one-level copy `{norm(v)}`"
+                            elif is_name(b, "copy") and False:
+                                pass
+                        elif isinstance(v, ast.Call) and dotted(v.func) == "copy.copy" and len(v.args) == 1 and isinstance(v.args[0], ast.Attribute) and _selfish(v.args[0].value):
+                            src, how = v.args[0].attr, f"is a one-level copy `{norm(v)}`"
+                        elif isinstance(v, ast.Dict) and any(k is None for k in v.keys):
+                            for k, x in zip(v.keys, v.values):
+                                if k is None and isinstance(x, ast.Attribute) and _selfish(x.value):
+                                    src, how = x.attr, f"is a one-level copy `{norm(v)}`"
+                        if src is None:
+                            cx.ob("R10l", st, True, f"entry of self.{t.value.attr} is built for this key (not taken from a persistent template)")
+                            continue
+                        tpl = init.get(src, [])
+                        shared = [x for x in tpl if nests_mutable(x)] if how.startswith("is a one-level") else \
+                            [x for x in tpl if isinstance(x, (ast.Dict, ast.List, ast.Set, ast.DictComp, ast.ListComp, ast.SetComp))]
+                        bad = bool(shared) and bool(deep_writes)
+                        cx.ob("R10l", st, not bad, f"entry of self.{t.value.attr} comes from self.{src}, which holds no mutable parts that are written through the cache" if not bad else
+                              f"the entry stored in self.{t.value.attr} under a per-palette key {how} of self.{src}, whose values are mutable containers "
+                              f"(`{norm(shared[0])[:70]}`); the class fills them in place (`{norm(enclosing_stmt(deep_writes[0]))[:60]}`), so all keys share one set of inner containers "
+                              "and a rendering under one palette is served under another")
+    cx.at_least("R10l", "keyed cache stores examined", n_sites, 2)
